@@ -419,6 +419,8 @@ Tree2d == [s1 |-> "prov", d2 |-> "s1"]
 Tree3d == [s1 |-> "prov", d2 |-> "s1", s3 |-> "d2"]
 Tree2 == [s1 |-> "prov", s2 |-> "s1"]
 Tree1 == [s1 |-> "prov"]
+\* two sibling scopes under one parent scope (closed in either order while the parent lives), and a third on the provider
+TreeSib == [s1 |-> "prov", s2 |-> "s1", s3 |-> "s1", s4 |-> "prov"]
 \* for long random walks: eight scope names (a name is used once), nested ones with and without a derived context
 Tree8 == [s1 |-> "prov", s2 |-> "s1", s3 |-> "prov", d2 |-> "s3", s4 |-> "prov", s5 |-> "s4", s6 |-> "s5", s7 |-> "prov"]
 
